@@ -196,9 +196,9 @@ func TestC04(t *testing.T) {
 	vcore.Run(t, "C04", rapid.Custom(func(t *rapid.T) Case { return GenHistory(t, c04Params) }), checkC04)
 }
 
-var c02Params = &HistoryParams{MinOps: 15, MaxOps: 50, Cloud: 0, Lag: true, Ranges: true,
+var c02Params = &HistoryParams{MinOps: 15, MaxOps: 50, Cloud: 0, Lag: true, Ranges: true, FaultPct: 25,
 	Weights: map[string]int{"create": 18, "delete": 14, "sched": 20, "phase": 5, "deliver": 14, "unbind": 14, "drop": 0, "reserve": 0,
-		"unreserve": 0, "fipevent": 0, "apirelease": 1, "restart": 6, "resync": 8, "poolapi": 1, "scale": 3},
+		"unreserve": 0, "fipevent": 0, "apirelease": 4, "restart": 6, "resync": 8, "poolapi": 1, "scale": 3},
 	Kinds: []string{"sts", "dp", "dp", "cr", "nscr", "bare", "dppool", "stspool", "crpool"}, Policies: []string{"immutable", "never", "never", ""}}
 
 func checkC02(c Case, r *vcore.Rec) *vcore.Failure {
